@@ -48,7 +48,11 @@ impl BlockFormatter for BlockIndentRemover {
             Some(pos) => start_byte_pos - pos - 1,
             None => 0,
         };
+        // The removal may end in the middle of a line: step over a whole character, not over one byte.
         let mut current_pos = start_byte_pos + 1;
+        while !content.is_char_boundary(current_pos) {
+            current_pos += 1;
+        }
         let first_indent_len = get_indent_len(content, current_pos);
         let indent_len = first_indent_len.saturating_sub(indent_ofs);
 
